@@ -59,6 +59,10 @@ def facts(rep):
         if f.get(k) != v:
             rep.violation("T4 fact changed: %s is now `%s` (model: `%s`)" % (k, f.get(k), v), {"fact": k, "source": f.get(k), "model": v}, False)
     n += 1
+    if f.get("import_names") != f.get("import_names_assumed"):
+        rep.violation("T4 fact changed: the plugins import packages under the names %s, the model lines reserve %s" % (
+            f.get("import_names"), f.get("import_names_assumed")), {"fact": "names.ImportNames", "source": f.get("import_names")}, False)
+    n += 1
     if not f.get("override_site"):
         rep.violation("T4 fact changed: the -pluginprefix override in main.go is no longer `if override { pluginprefix = newprefix }`",
                       {"fact": "override_site"}, False)
